@@ -438,6 +438,10 @@ func (f *FuncCFG) forEachEdgeFact(fn func(e Edge, b *cfg.Block, ft fact)) {
 		if c == nil {
 			continue
 		}
+		if tag, ok := caseTagOf[c]; ok {
+			// a case of a tagged switch: the edges carry tag == case / tag != case
+			c = &ast.BinaryExpr{X: tag, Op: token.EQL, Y: c}
+		}
 		for si, br := range []bool{true, false} {
 			for _, ft := range factsOn(c, br) {
 				fn(Edge{b, si}, b, ft)
@@ -858,7 +862,7 @@ func (f *FuncCFG) IterationSkips(l loopInfo, must func(ast.Node) bool) ([]string
 }
 
 // reachBlock is reach with a target on blocks (entered from a predecessor) or function exits.
-func (f *FuncCFG) reachBlock(from Point, o *searchOpts, target func(b *cfg.Block) bool) ([]string, bool) {
+func (f *FuncCFG) reachBlock(from Point, o *searchOpts, target func(b *cfg.Block) bool, exitCounts ...bool) ([]string, bool) {
 	type item struct {
 		b    *cfg.Block
 		i    int
@@ -897,7 +901,7 @@ func (f *FuncCFG) reachBlock(from Point, o *searchOpts, target func(b *cfg.Block
 		if len(it.b.Nodes) > 0 {
 			path = append(append([]string{}, path...), fmt.Sprintf("%s (%s)", f.P.posStr(it.b.Nodes[0].Pos()), it.b.Kind))
 		}
-		if f.isExitBlock(it.b) {
+		if f.isExitBlock(it.b) && (len(exitCounts) == 0 || exitCounts[0]) {
 			return append(path, "exit"), true
 		}
 		for si, s := range it.b.Succs {
@@ -1185,8 +1189,27 @@ func (f *FuncCFG) expand(depth int, onStack map[*types.Func]bool) {
 			break
 		}
 	}
+	// blocks that lost their last predecessor (e.g. the generic continuation when every return of
+	// the helper was classified) are dead
+	reach := map[*cfg.Block]bool{}
+	var stack []*cfg.Block
+	if len(f.G.Blocks) > 0 {
+		stack = append(stack, f.G.Blocks[0])
+	}
+	for len(stack) > 0 {
+		b := stack[len(stack)-1]
+		stack = stack[:len(stack)-1]
+		if reach[b] || !b.Live {
+			continue
+		}
+		reach[b] = true
+		stack = append(stack, b.Succs...)
+	}
 	for i, b := range f.G.Blocks {
 		b.Index = int32(i)
+		if b.Live && !reach[b] && len(f.Expanded) > 0 {
+			b.Live = false
+		}
 	}
 }
 
